@@ -7,5 +7,5 @@ Alphabet == {97, DOT, SLASH, BSLASH, NUL}
 Init == n \in UNION {[1..k -> Alphabet] : k \in 0..MaxLen}
 Next == UNCHANGED n
 Spec == Init /\ [][Next]_n
-Safe == EnclosedSafe(n) /\ EnclosedComplete(n) /\ MangledSafe(n)
+Safe == EnclosedSafe(n) /\ EnclosedComplete(n) /\ MangledSafe(n) /\ FromPathSafe(n)
 =============================================================================
